@@ -251,6 +251,13 @@ func runC08Seq(rc *RunCtx) *simkit.Violation {
 		prebuilt[n] = core.NewLabel(core.LabelDescriptor(model.NewLabelDescriptor(model.LabelContributor(contributor), model.LabelName(n))))
 	}
 	steps := t.Range(2, 10)
+	// one run in three is a long-lived process: every assignment goes through the Label values built at the start, on
+	// one repository, two label names and few bundles (the same assignment is made again after a delete or a move)
+	reuse := t.Bool(1, 3)
+	if reuse {
+		steps = t.Range(4, 12)
+		w.Probe("long-lived-label-values")
+	}
 	var trace []string
 	assigned := map[string]map[string][]string{} // repo -> label -> every assignment since the label was (re)created
 	for _, r := range repos {
@@ -268,6 +275,10 @@ func runC08Seq(rc *RunCtx) *simkit.Violation {
 		if len(labels[r]) > 0 && t.Bool(1, 3) {
 			ks := sortedKeys(labels[r])
 			name = ks[t.Choose(len(ks))] // act on an existing label
+		}
+		if reuse {
+			r, hostile = repos[0], false
+			name = validLabelNames[t.Choose(2)]
 		}
 		switch t.Pick(0, 0, 0, 1, 2, 3, 4) {
 		case 4: // the versions of a label (a versioned label store keeps every assignment since the label was created)
@@ -301,9 +312,12 @@ func runC08Seq(rc *RunCtx) *simkit.Violation {
 			continue
 		case 0: // set
 			id := bundles[r][t.Choose(len(bundles[r]))]
+			if reuse {
+				id = bundles[r][t.Choose(min(2, len(bundles[r])))]
+			}
 			curRepo, curName = r, name
 			setFn := setLabelFn(st, r, name, id)
-			if prebuilt[name] != nil && t.Bool(1, 3) {
+			if prebuilt[name] != nil && (reuse || t.Bool(1, 3)) {
 				// the assignment goes through a Label value built when the run started (and possibly used before)
 				setFn = setLabelWithFn(prebuilt[name], st, r, id)
 				w.Probe("set-through-prebuilt-label")
